@@ -273,12 +273,6 @@ def insert(
     module = block.module
     cfg = block.ir.cfg
 
-    _add_return_edges_for_patch_calls(
-        cache,
-        module,
-        code.cfg,
-    )
-
     if isinstance(block, gtirb.CodeBlock):
         _update_patch_return_edges_to_match(
             cache, block, code.cfg, code.proxies
@@ -294,6 +288,15 @@ def insert(
         remove_block(cache, mid_block)
     else:
         _connect_empty_tail(cache, cfg, end_block)
+
+    # The callee's returning blocks have to be looked up after the splits: the
+    # patch may call the very function (even the block) it is inserted into,
+    # and then the return instruction is in the split-off tail.
+    _add_return_edges_for_patch_calls(
+        cache,
+        module,
+        code.cfg,
+    )
 
     # Stitch in the new blocks to the CFG
     if added_fallthrough:
